@@ -29,7 +29,7 @@ SPEC = {
     "harness_timeout": {"quick": 1500, "thorough": 6000},
     "race": False,
     "theorems": ["C16_conservation", "C16_no_run_after_shutdown_complete", "C16_shutdown_terminates_partial",
-                 "C16_exactly_once_partial", "C16_group_wait", "C16_submit_window_lost_witness",
+                 "C16_exactly_once_partial", "C16_start_spawns_clean", "C16_group_wait", "C16_submit_window_lost_witness",
                  "C16_submit_window_hang_witness", "C16_signal_lost_witness", "C16_statement_fails_witness",
                  "C16_old_start_witness", "C16_restart_example", "C16_group_example",
                  "C16_skeleton_WorkerPool_Start", "C16_skeleton_WorkerPool_Submit", "C16_skeleton_WorkerPool_IsRunning", 
